@@ -47,30 +47,9 @@ func resolveMacroAnchors(p *Prog, a *Anchors, r *Report) *macroAnchors {
 			if !ok || bo.Op != token.ADD {
 				return
 			}
-			execsBody := false
-			runsWrapper := func(g *ssa.Function) bool {
-				for _, b := range g.Blocks {
-					for _, x := range b.Instrs {
-						if ci, isCall := x.(ssa.CallInstruction); isCall && ci.Common().StaticCallee() != nil && ci.Common().StaticCallee().Name() == "Execute" && len(ci.Common().Args) > 0 && loadsField(ci.Common().Args[0], "tagMacroNode", "wrapper") {
-							return true
-						}
-					}
-				}
-				return false
-			}
-			for _, g := range withClosures(topLevel(f)) {
-				if runsWrapper(g) {
-					execsBody = true
-				}
-				// … or calls (one hop) the function that runs a macro's body
-				for _, b := range g.Blocks {
-					for _, x := range b.Instrs {
-						if ci, isCall := x.(ssa.CallInstruction); isCall && ci.Common().StaticCallee() != nil && p.InPkg(ci.Common().StaticCallee()) && ci.Common().StaticCallee().Blocks != nil && runsWrapper(ci.Common().StaticCallee()) {
-							execsBody = true
-						}
-					}
-				}
-			}
+			// … in a function that runs a macro's body (or calls, one hop, the function that does), or in a step helper
+			// (enterMacroCall) that such a function calls
+			execsBody := macroBodyExecutor(p, f) || steppedByExecutor(p, st, fieldName(fa.X.Type(), fa.Field))
 			if execsBody {
 				name := fieldName(fa.X.Type(), fa.Field)
 				dup := false
@@ -167,16 +146,13 @@ func isDepthStore(in ssa.Instruction, field string, op token.Token) bool {
 // guardedSite: instruction `site` in function g is preceded on every path by an increment of the depth counter
 // and reached only on the within-cap edge of a comparison with a constant, whose exceeding edge returns an error.
 func guardedSite(p *Prog, g *ssa.Function, site ssa.Instruction, field string) (bool, string) {
-	inc := MustPass(site, func(x ssa.Instruction) bool { return isDepthStore(x, field, token.ADD) })
+	inc := MustPass(site, func(x ssa.Instruction) bool { return isDepthStep(p, x, field, token.ADD) })
 	if !inc {
 		return false, "no increment of ExecutionContext." + field + " on every path to it"
 	}
-	var cmpBlock *ssa.BasicBlock
-	var cmpIdx int
 	var capv int64
 	cmp := Guarded(site, func(c ssa.Value, pol bool) bool {
-		within, kv, ok := depthCmp(c, field)
-		if ok && within == pol {
+		if kv, ok := depthWithin(p, c, pol, field); ok {
 			capv = kv
 			return true
 		}
@@ -186,21 +162,7 @@ func guardedSite(p *Prog, g *ssa.Function, site ssa.Instruction, field string) (
 		return false, "not restricted to the within-cap edge of a comparison of ExecutionContext." + field + " with a constant"
 	}
 	// find the comparison's exceeding edge and check that it returns an error
-	for _, b := range g.Blocks {
-		if len(b.Instrs) == 0 {
-			continue
-		}
-		if iff, ok := b.Instrs[len(b.Instrs)-1].(*ssa.If); ok {
-			c, pol := normCond(iff.Cond, true)
-			if within, _, ok := depthCmp(c, field); ok {
-				cmpBlock = b
-				cmpIdx = 0
-				if within == pol {
-					cmpIdx = 1 // exceeding edge is the other one
-				}
-			}
-		}
-	}
+	cmpBlock, cmpIdx := depthExceedingEdge(p, g, field)
 	if cmpBlock == nil || !errorReturnsOnly(g, cmpBlock.Succs[cmpIdx]) {
 		return false, "the exceeding edge of the depth comparison does not end in an error return"
 	}
@@ -229,50 +191,27 @@ func checkC13(p *Prog, r *Report) {
 		if !isDepthStore(in, ma.depthField, token.ADD) {
 			return
 		}
+		// an increment that stands in a step helper (enterMacroCall) is undone where the helper is called: at every
+		// call site, or the increment is reported where it stands
 		key := p.FuncName(f) + ":inc"
-		// deferred closure that decrements, registered after/before on every path
-		deferred := false
-		for _, b := range f.Blocks {
-			for _, x := range b.Instrs {
-				d, ok := x.(*ssa.Defer)
-				if !ok {
-					continue
-				}
-				var fn *ssa.Function
-				if mc, ok := d.Call.Value.(*ssa.MakeClosure); ok {
-					fn = mc.Fn.(*ssa.Function)
-				} else {
-					fn = d.Call.StaticCallee()
-				}
-				if fn == nil {
-					continue
-				}
-				dec := false
-				for _, bb := range fn.Blocks {
-					for _, y := range bb.Instrs {
-						if isDepthStore(y, ma.depthField, token.SUB) {
-							dec = true
-						}
-					}
-				}
-				if dec {
-					// the defer must be registered on every path from the increment to any exit
-					ok, _ := AllExitsPass(in, func(z ssa.Instruction) bool { return z == ssa.Instruction(d) })
-					if ok || Dominates(d, in) {
-						deferred = true
-					}
-				}
+		sites := depthIncSites(p, in, ma.depthField, 2)
+		if len(sites) == 1 && sites[0] == in {
+			if ok, how, off := depthUndone(p, in, ma.depthField); ok {
+				r.OK(key, p.InstrPos(in), "%s", how)
+			} else {
+				r.Bad(key, p.InstrPos(in), "the depth counter is incremented but a return at %s is reachable without the decrement: legitimate call sequences accumulate depth and hit the cap", p.InstrPos(off))
 			}
-		}
-		if deferred {
-			r.OK(key, p.InstrPos(in), "a deferred decrement is registered on every path")
 			return
 		}
-		ok, off := AllExitsPass(in, func(z ssa.Instruction) bool { return isDepthStore(z, ma.depthField, token.SUB) })
-		if ok {
-			r.OK(key, p.InstrPos(in), "decremented on every path to a return")
-		} else {
-			r.Bad(key, p.InstrPos(in), "the depth counter is incremented but a return at %s is reachable without the decrement: legitimate call sequences accumulate depth and hit the cap", p.InstrPos(off))
+		for _, site := range sites {
+			if ok, _, off := depthUndone(p, site, ma.depthField); !ok {
+				r.Bad(key, p.InstrPos(in), "the depth counter is incremented (on behalf of %s, at %s) but a return at %s is reachable without the decrement: legitimate call sequences accumulate depth and hit the cap", p.FuncName(site.Parent()), p.InstrPos(site), p.InstrPos(off))
+				return
+			}
+		}
+		for _, site := range sites {
+			_, how, _ := depthUndone(p, site, ma.depthField)
+			r.OK(p.FuncName(site.Parent())+":inc", p.InstrPos(site), "%s (the increment stands in %s)", how, p.FuncName(f))
 		}
 	})
 
@@ -774,7 +713,7 @@ func ruleC13LazyDefaults(p *Prog, ma *macroAnchors, r *Report) {
 					if g {
 						r.OK(key, p.InstrPos(in), "evaluated only when the parameter's position is not covered by the call's arguments")
 					} else {
-						r.Bad(key, p.InstrPos(in), "a default expression is evaluated although the call may supply the parameter: {% macro m(a=lookup()) %} … {{ m(1) }} fails when lookup() fails, and a default that calls the macro itself recurses to the depth limit")
+						r.Bad(key, p.InstrPos(in), "a default expression is evaluated although the call may supply the parameter: {%% macro m(a=lookup()) %%} … {{ m(1) }} fails when lookup() fails, and a default that calls the macro itself recurses to the depth limit")
 					}
 				}
 			}
@@ -857,7 +796,7 @@ func ruleC13Self(p *Prog, a *Anchors, ma *macroAnchors, r *Report) {
 				if bound {
 					r.OK(key, p.InstrPos(in), "the defined name is bound in the body's context before the body runs")
 				} else {
-					r.Bad(key, p.InstrPos(in), "the body runs in a context in which the macro's own name is bound only if the caller happens to have it: {% import \"lib\" count as c %}{{ c(3) }} renders the recursive call count(n-1) as nothing (and an endless recursion through an alias meets no depth limit because it never happens)")
+					r.Bad(key, p.InstrPos(in), "the body runs in a context in which the macro's own name is bound only if the caller happens to have it: {%% import \"lib\" count as c %%}{{ c(3) }} renders the recursive call count(n-1) as nothing (and an endless recursion through an alias meets no depth limit because it never happens)")
 				}
 			}
 		}
